@@ -38,6 +38,7 @@ type authHostCfg struct {
 	TokenFault      string  `json:"token_fault,omitempty"`          // "", 401, 403, 500, 302, badjson, notoken, empty200
 	RealmHost       string  `json:"realm_host,omitempty"`           // default auth-<host>
 	TokenDelay      float64 `json:"token_server_seconds,omitempty"` // virtual time a token request takes (a slow token server)
+	Service         string  `json:"service,omitempty"`              // service name in the challenge (default svc-<host>); several registries may share realm and service
 }
 
 type issuedToken struct {
@@ -88,6 +89,13 @@ func (h *authHostCfg) realmHost() string {
 		return h.RealmHost
 	}
 	return "auth-" + strings.ReplaceAll(h.Host, ":", "-")
+}
+
+func (h *authHostCfg) service() string {
+	if h.Service != "" {
+		return h.Service
+	}
+	return "svc-" + h.Host
 }
 
 func newAuthNet(cfgs []*authHostCfg) *authNet {
@@ -156,7 +164,7 @@ func (n *authNet) challengeFor(c *authHostCfg, demand ociauth.Scope) []string {
 	case "unparsable":
 		scopeText = "!!not a scope:::"
 	}
-	bearer := fmt.Sprintf(`Bearer realm="https://%s/token",service="svc-%s"`, c.realmHost(), c.Host)
+	bearer := fmt.Sprintf(`Bearer realm="https://%s/token",service="%s"`, c.realmHost(), c.service())
 	if scopeText != "" {
 		bearer += fmt.Sprintf(`,scope="%s"`, scopeText)
 	}
@@ -223,6 +231,20 @@ func (n *authNet) RoundTrip(req *http.Request) (*http.Response, error) {
 		resp = n.registry(c, req)
 	} else if c := n.realms[host]; c != nil {
 		rec.Kind = "token"
+		// a token service shared by several registries serves whoever's credentials the request carries
+		// (else the registry the call was addressed to)
+		for _, cand := range n.hosts {
+			if cand.realmHost() != host {
+				continue
+			}
+			if rec.carries(cand.password()) || rec.carries(cand.refresh()) {
+				c = cand
+				break
+			}
+			if th, ok := n.tripHost[trip]; ok && th == cand.Host {
+				c = cand
+			}
+		}
 		resp = n.tokenServer(c, req, body)
 	} else {
 		rec.Kind = "unknown"
@@ -268,7 +290,7 @@ func (n *authNet) registry(c *authHostCfg, req *http.Request) *http.Response {
 	n.bearerPresented = strings.HasPrefix(auth, "Bearer ")
 	chals := n.challengeFor(c, shown)
 	if c.Scheme == "always401" {
-		chals = []string{fmt.Sprintf(`Bearer realm="https://%s/token",service="svc-%s",scope="%s"`, c.realmHost(), c.Host, demand.String())}
+		chals = []string{fmt.Sprintf(`Bearer realm="https://%s/token",service="%s",scope="%s"`, c.realmHost(), c.service(), demand.String())}
 	}
 	for _, ch := range chals {
 		h.Add("Www-Authenticate", ch)
@@ -277,9 +299,25 @@ func (n *authNet) registry(c *authHostCfg, req *http.Request) *http.Response {
 			n.basicSeen[c.Host] = true
 		}
 		if i := strings.Index(lc, `realm="`); i >= 0 {
+			// RFC 7230 quoted-string: a backslash makes the next octet literal, whatever it is
+			// (decoded here independently of ociauth's challenge parser)
+			var val []byte
 			rest := ch[i+7:]
-			if j := strings.IndexByte(rest, '"'); j >= 0 {
-				if u, err := url.Parse(rest[:j]); err == nil && u.Host != "" {
+			closed := false
+			for k := 0; k < len(rest); k++ {
+				if rest[k] == '\\' && k+1 < len(rest) {
+					k++
+					val = append(val, rest[k])
+					continue
+				}
+				if rest[k] == '"' {
+					closed = true
+					break
+				}
+				val = append(val, rest[k])
+			}
+			if closed {
+				if u, err := url.Parse(string(val)); err == nil && u.Host != "" {
 					if n.named[c.Host] == nil {
 						n.named[c.Host] = map[string]bool{}
 					}
